@@ -36,6 +36,8 @@ var c05Types = []c05Type{
 	{decl.TUpper, [8]string{"c1", "c2", "i1", "i2", "e1", "e2", "d1", "d2"}, decl.Upper{S: "N0"}},
 	{decl.TMapSS, [8]string{"k:c1", "k:c2", "k:i1", "k:i2", "k:e1", "k:e2", "k:d1", "k:d2"}, map[string]string{"k": "n0", "z": "n1"}},
 	{decl.TCSV, [8]string{"c1,cc", "c2", "i1,ii", "i2", "e1,ee", "e2", "d1,dd", "d2"}, decl.CSV{"n0", "n1"}},
+	{decl.TString, [8]string{"c1", "c2", "i1", "i2", "e1", "e2", "", ""}, "n0"},               // the default tag is the empty string: still a default
+	{decl.TStrings, [8]string{"c1", "c2", "i1", "i2", "e1", "e2", "", "d2"}, []string{"n0", "n1"}}, // first of two default tags empty
 }
 
 var c05Histories = []string{"C", "IC", "DC", "CD", "DCD", "config-flag-before", "config-flag-after", "config-default-first", "config-default-last", "DD-C"}
@@ -99,6 +101,11 @@ func c05Get(ti int, initial bool, ndef int, envDelim bool, nest int, nsDelim int
 		top.SubOptional = true
 		top.Cmds = []*decl.Cmd{{Field: "Sub", Name: "sub", Opts: []*decl.Opt{o}}}
 		sect = "sub"
+	case 6: // ... or to a command two levels down
+		top.Opts = []*decl.Opt{other}
+		top.SubOptional = true
+		top.Cmds = []*decl.Cmd{{Field: "Sub", Name: "sub", SubOptional: true, Cmds: []*decl.Cmd{{Field: "Deep", Name: "deep", Opts: []*decl.Opt{o}}}}}
+		sect = "sub.deep"
 	}
 	switch cfgPos {
 	case 1:
@@ -140,7 +147,7 @@ func init() {
 		nini := c.Choose(3)
 		hi := c.Choose(len(c05Histories))
 		hist := c05Histories[hi]
-		nest := c.Deviate(6)
+		nest := c.Deviate(7)
 		nsDelim := c.Deviate(3)
 		if isBool && ncli == 2 {
 			c.Skip()
@@ -203,7 +210,10 @@ func init() {
 		if nest == 5 && ncli > 0 {
 			argv = append([]string{"sub"}, argv...)
 		}
-		if nest == 5 {
+		if nest == 6 && ncli > 0 {
+			argv = append([]string{"sub", "deep"}, argv...)
+		}
+		if nest >= 5 {
 			c.Hit("option-of-a-command")
 		}
 		switch hist {
@@ -408,9 +418,9 @@ func init() {
 		ShardDepth: 3,
 		Body:       body,
 		DevBound:   func(bool) int { return 2 },
-		Rule: "10 option types (string, int, bool, *int, []string, []int, map[string]int, Unmarshaler, map[string]string with one key in every source, a slice-kinded Unmarshaler that appends) x initial value present/absent x 0..2 default tags x environment {unset, one value, two values with env-delim, set-but-empty} " +
+		Rule: "12 option types (a string whose default tag is empty, a []string whose first default tag is empty, string, int, bool, *int, []string, []int, map[string]int, Unmarshaler, map[string]string with one key in every source, a slice-kinded Unmarshaler that appends) x initial value present/absent x 0..2 default tags x environment {unset, one value, two values with env-delim, set-but-empty} " +
 			"x 0..2 INI entries x 0..2 command-line occurrences x 10 histories (CLI only; INI then CLI; as-defaults INI then CLI; CLI then as-defaults INI; as-defaults, CLI, as-defaults; as-defaults read from a callback option given before / after the occurrences; " +
-			"from a callback option's default declared first / last; two as-defaults reads then CLI) x env-namespace nesting {none, outer, outer+inner, outer only around a plain inner group, inner only inside a plain outer group, option declared on a subcommand that the command line selects only when the option occurs} x EnvNamespaceDelimiter {_, empty, __} (nesting/delimiter deviation-bounded); one more deviation uses a single IniParser object for all reads of a history; another builds the parser through the API and adds the option's group only after a first ParseArgs; a second []string option initialised from the same backing array must keep its value; " +
+			"from a callback option's default declared first / last; two as-defaults reads then CLI) x env-namespace nesting {none, outer, outer+inner, outer only around a plain inner group, inner only inside a plain outer group, option declared on a subcommand, or on a command two levels down, that the command line selects only when the option occurs} x EnvNamespaceDelimiter {_, empty, __} (nesting/delimiter deviation-bounded); one more deviation uses a single IniParser object for all reads of a history; another builds the parser through the API and adds the option's group only after a first ParseArgs; a second []string option initialised from the same backing array must keep its value; " +
 			"the history machine per option is {untouched, defaulted, ini, explicit}; oracle = precedence function CLI > INI > env > default tags > initial, multi-valued options holding exactly the winner's values",
 		Assumptions:  []string{"plain-mode INI read after a command-line parse is not ranked by the statement and is not exercised", "an empty environment value for a non-string option is skipped"},
 		RequiredHits: []string{"winner:cli", "winner:ini", "winner:env", "winner:default", "winner:initial", "history:CD", "history:DCD", "history:config-flag-after", "history:config-default-last", "option-of-a-command", "group-added-after-a-first-parse"},
